@@ -212,7 +212,7 @@ func (s *state) walk(node ast.Node) {
 
 	// Arithmetic operators ----------
 	case *ast.NegateNode:
-		s.js("(-", node.Arg, ")")
+		s.js("(- ", node.Arg, ")") // (the space keeps "-" apart from a negative literal: "--5" is a decrement.)
 	case *ast.AddNode:
 		s.op("+", node)
 	case *ast.SubNode:
